@@ -11,6 +11,7 @@ import (
 	"github.com/goatcms/goatcore/app/modules/pipelinem/pipservices"
 	"github.com/goatcms/goatcore/app/modules/pipelinem/pipservices/namespaces"
 	"github.com/goatcms/goatcore/app/scope"
+	"github.com/goatcms/goatcore/app/scope/contextscope"
 	"github.com/goatcms/goatcore/filesystem/filespace/memfs"
 	"pgregory.net/rapid"
 	"verif/harness/hx"
@@ -143,13 +144,20 @@ func execNS(c NSCase) hx.Verdict {
 			case phase <- fmt.Sprintf("Runner.Run of submission #%d (%s, sandbox %q)", i, s.Name, sb):
 			default:
 			}
+			// every submission in a scope with a context of its own (an isolated child of the root, as
+			// in the "isolated" mode of the graph kind): a task that ends failed must not cancel the
+			// unrelated tasks through a shared context
+			scp := scope.NewChild(root, scope.ChildParams{
+				ContextScope: contextscope.NewIsolated(root.BaseContextScope()),
+				Name:         "iso:" + s.Name,
+			})
 			rerr := svc.Runner.Run(pipservices.Pip{
 				Context: pipservices.PipContext{
 					In:    gio.NewInput(strings.NewReader(fmt.Sprintf("p --id=n%d\n", i))),
 					Out:   gio.NewNilOutput(),
 					Err:   gio.NewNilOutput(),
 					CWD:   cwd,
-					Scope: root,
+					Scope: scp,
 				},
 				Name:       s.Name,
 				Namespaces: ns,
